@@ -214,7 +214,7 @@ def lifting_index_bounds(out, eng):
         m = re.search(r"(src/[\w/]+\.rs)", n)
         if m:
             last_file = m.group(1)
-        if last_file.startswith(("src/tc/lift/", "src/tc/rule/")) and "::test" not in n and not re.search(r"::(fmt|clone|eq|hash|assert_fields_are_eq)$", n):
+        if last_file.startswith(("src/tc/lift/", "src/tc/rule/", "src/opcode/")) and "::test" not in n and not re.search(r"::(fmt|clone|eq|hash|assert_fields_are_eq|as_text_code|as_byte|encode|min_gas_cost|arg_count)$", n):
             fns.append((n if m else "%s::<%s>" % (n, last_file), f))
     t0 = time.time()
     explored, skipped, flagged = 0, [], []
@@ -228,7 +228,7 @@ def lifting_index_bounds(out, eng):
         def body(ctx, f=f):
             ctx.vec_index_panics = True
             # only the lifting code itself (and field accessors) is followed; folding, transforming, sizing ... are havoc'd
-            ctx.inline_filter = lambda name: name in by_name or bool(re.search(r"::data$|::provenance$|::instruction_pointer$", name))
+            ctx.inline_filter = lambda name: name in by_name or bool(re.search(r"::data$|::provenance$|::instruction_pointer$|<usize as From<&?KnownWord>>::from$|<impl at src/vm/value/known.rs[^>]*>::(from|into)$", name))
             args = []
             for i, (_, t) in enumerate(f.args):
                 t = t.strip()
@@ -248,7 +248,17 @@ def lifting_index_bounds(out, eng):
         for p in paths:
             # an arithmetic assert fed by a havoc'd callee result is not evidence (the havoc drops the relation between
             # the operands); vector indexing is modelled exactly (index < symbolic length)
-            havocd = any(e and e[0] == "havoc" for e in (getattr(getattr(p, "ctx", None), "events", None) or []))
+            # the failing condition is the last conjunct of the path condition: it counts only if no havoc'd value occurs in it
+            cond_vars = p.ctx._vars_of(p.pc[-1]) if (p.kind == "panic" and p.pc and getattr(p, "ctx", None) is not None) else set()
+            # a havoc'd SCALAR ("havoc:<callee>#n") has lost its relation to the other operands; a component read out of a
+            # havoc'd TREE ("havoc:<callee>#n.<path>", e.g. the word inside whatever constant_fold returned) is as free as the
+            # bytecode makes it, and counts
+            # (only `constant_fold` is trusted to return an arbitrary tree: what it yields is whatever constant the bytecode holds)
+            havocd = any(v.startswith("havoc:") and not re.match(r"^havoc:.*constant_fold#\d+\.", v) for v in cond_vars) or not p.pc
+            # `self` of an opcode / pass object (argument 0) carries constructor invariants (DupN::new: 1 <= n <= 16, ...)
+            # that the constructors' own harnesses decide; a condition over those fields alone is not evidence either
+            if cond_vars and all(v == "a0" or v.startswith("a0.") for v in cond_vars):
+                havocd = True
             if p.kind == "panic" and ("index out of bounds" in p.msg or ("MIR assert" in p.msg and not havocd)):
                 s = z3.Solver()
                 for c in p.pc:
@@ -256,6 +266,20 @@ def lifting_index_bounds(out, eng):
                 if s.check() == z3.sat:
                     flagged.append((n, p.msg))
                     break
+    # producer invariants that the isolated exploration cannot see (each one read off the producers, and part of the claim)
+    assumed = {"src/tc/rule/call_data.rs": "CallData nodes are built by CALLDATALOAD and by the 32-byte chunks of CALLDATACOPY with the constant size 32, and by "
+                                           "CALLDATACOPY's other branch only with a size that did NOT fold to a constant, so `size * 8` in CallDataRule never "
+                                           "sees a constant other than 32"}
+    kept = []
+    for n_, msg_ in flagged:
+        mf = re.search(r"(src/[\w/]+\.rs)", n_)
+        if mf and mf.group(1) in assumed:
+            note = "assumed: %s" % assumed[mf.group(1)]
+            if note not in out.assumptions:
+                out.assumptions.append(note)
+            continue
+        kept.append((n_, msg_))
+    flagged = kept
     dt = time.time() - t0
     out.extra["lifting_index_bounds"] = {"functions_explored": explored, "not_encoded": skipped}
     oid = "B.lifting_index_bounds"
@@ -270,7 +294,9 @@ def lifting_index_bounds(out, eng):
     confirmed, rep = native.scenario(out, "idiom_corpus_panics", {})
     if confirmed:
         out.obligation(oid, "mirsmt", "violated", dt, witness=True, note=what, replay=rep)
-        out.violation(C.Violation(key="lifting-pass-panics:%s" % where.split("::")[-2 if where.endswith("}") else -1], what="%s: %s" % (oid, what),
+        mfile = re.search(r"<(src/[^>]+)>", where)
+        fname = re.sub(r"::<src/[^>]+>", "", where).split("::")[-1] if not where.endswith(">") else where.split("::")[0]
+        out.violation(C.Violation(key="lifting-pass-panics:%s::%s" % (mfile.group(1) if mfile else "?", fname), what="%s: %s" % (oid, what),
                                   replay={"engine": "mirsmt", "native": rep}))
     else:
         out.obligation(oid, "mirsmt", "sat-unconfirmed", dt, witness=False, note=what, replay=rep)
